@@ -240,6 +240,15 @@ func cmdC15(seed uint64, n int, dir string) {
 		seenTop := map[string]int{}
 		initSeen := map[string]int{}
 		pos := map[string]int{}
+		first, last := map[string]int{}, map[string]int{} // first / last marker line (top-level code or init) of a package
+		for i, l := range lines {
+			if f := strings.Fields(l); len(f) >= 2 && (f[0] == "top" || f[0] == "init") {
+				if _, ok := first[f[1]]; !ok {
+					first[f[1]] = i
+				}
+				last[f[1]] = i
+			}
+		}
 		for i, l := range lines {
 			f := strings.Fields(l)
 			switch {
@@ -281,6 +290,10 @@ func cmdC15(seed uint64, n int, dir string) {
 				if _, script := gph.dir[q]; script && pos[q] > pos[p] {
 					rec(fmt.Sprintf("%s initialises before its importer %s", q, p), strings.Join(order, " "))
 				}
+				// ALL of the dependency's top-level code and its init run before ANY code of the importer
+				if _, script := gph.dir[q]; script && last[q] > first[p] {
+					rec("a dependency's top-level code and init all run before any code of its importer", fmt.Sprintf("%s imports %s; output: %s", p, q, strings.Join(lines, " | ")))
+				}
 			}
 		}
 		var os []string
@@ -288,6 +301,17 @@ func cmdC15(seed uint64, n int, dir string) {
 			os = append(os, coqStrLit(p))
 		}
 		cases = append(cases, fmt.Sprintf("CLoad %s \"main\" (Some [%s])", gph.coq(), strings.Join(os, "; ")))
+		// the package of every marker line (top-level code of each file, init), against run_events of the model
+		var evs, nfs []string
+		for _, l := range lines {
+			if f := strings.Fields(l); len(f) >= 2 && (f[0] == "top" || f[0] == "init") {
+				evs = append(evs, coqStrLit(f[1]))
+			}
+		}
+		for _, p := range gph.paths {
+			nfs = append(nfs, fmt.Sprintf("(%s, %d%%nat)", coqStrLit(p), gph.files[p]))
+		}
+		cases = append(cases, fmt.Sprintf("CLoadE %s [%s] \"main\" [%s]", gph.coq(), strings.Join(nfs, "; "), strings.Join(evs, "; ")))
 	}
 	// conflicting package clauses are an error
 	{
